@@ -360,13 +360,14 @@ impl Change {
             } else {
                 old_value.version
             };
-            source_version + 1
+            source_version.saturating_add(1)
         } else if old_value.is_in_conflict_resolution() {
             old_value.version
         } else if self.version == -1 {
-            old_value.version + 1
+            old_value.version.saturating_add(1)
         } else {
-            self.version + 1
+            // the version comes from the client, i32::MAX must not overflow
+            self.version.saturating_add(1)
         }
     }
 }
@@ -571,12 +572,19 @@ impl Database {
             };
             match i32::from_str_radix(&current_str, 10) {
                 Ok(current) => {
-                    let next = (current + inc).to_string();
+                    let next = match current.checked_add(inc) {
+                        Some(next) => next.to_string(),
+                        None => {
+                            return Response::Error {
+                                msg: "Increment overflows the value".to_string(),
+                            }
+                        }
+                    };
                     let new_value = match old_value {
                         // Keep growing the version and keep the disk addresses of an existing key
                         Some(old) => Value {
                             value: next.clone(),
-                            version: old.version + 1,
+                            version: old.version.saturating_add(1),
                             state: old.get_update_value_sate(),
                             value_disk_addr: old.value_disk_addr,
                             key_disk_addr: old.key_disk_addr,
@@ -858,7 +866,7 @@ impl Database {
                 if old_version.state == ValueStatus::Deleted && new_version <= old_version.version {
                     // The key was removed (only a tombstone is left), writing it again is not a
                     // conflict whatever version is presented, just keep the version growing.
-                    new_version = old_version.version + 1;
+                    new_version = old_version.version.saturating_add(1);
                 }
                 if new_version <= old_version.version && !change.allow_save_version() {
                     let state = old_version.get_update_value_sate();
@@ -899,7 +907,7 @@ impl Database {
                 );
                 new_version
             } else {
-                let new_version = change.version + 1;
+                let new_version = change.version.saturating_add(1);
                 //new key, not in disk yet
                 db.insert(
                     change.key.clone(),
